@@ -996,7 +996,18 @@ func (e *Env) call(x *ECall) Val {
 		if !ok {
 			e.fail("lastret() needs a string literal")
 		}
-		if gv, ok := c.ghost["lastret "+normAnchor(st.Val)]; ok {
+		key := "lastret " + normAnchor(st.Val)
+		if len(x.Args) == 2 {
+			// lastret("callee", i): the i-th result
+			iv := e.tr(x.Args[1])
+			if iv.Num == nil {
+				e.fail("lastret(callee, i) needs a constant result index")
+			}
+			if iv.Num.Sign() > 0 {
+				key = fmt.Sprintf("%s#%d", key, iv.Num.Int64())
+			}
+		}
+		if gv, ok := c.ghost[key]; ok {
 			return gv
 		}
 		e.fail("lastret(%q): no call to that callee reaches this point", st.Val)
